@@ -113,9 +113,9 @@ def gen_copyrect(rng, sess):
     return sess.enc_copyrect(x, y, w, h, sx, sy)
 
 
-def gen_cursor(rng, sess, rich):
+def gen_cursor(rng, sess, rich, size=None):
     fmt = sess.fmt
-    w, h = rng.choice([(0, 0), (1, 1), (7, 3), (8, 8), (9, 2), (16, 16), (17, 5), (32, 32)])
+    w, h = size if size is not None else rng.choice([(0, 0), (1, 1), (7, 3), (8, 8), (9, 2), (16, 16), (17, 5), (32, 32)])
     xh, yh = (rng.randint(0, max(0, w - 1)), rng.randint(0, max(0, h - 1)))
     hdr = struct.pack(">HHHHI", xh, yh, w, h, E.ENC["richcursor" if rich else "xcursor"])
     if w * h == 0:
@@ -329,7 +329,7 @@ def oracle(sessn, impl):
             return "op %d: valid message rejected (%s)" % (i, ob[:200])
         if "CANARY-DAMAGED" in ob:
             return "op %d: write outside the framebuffer (canary band damaged)" % i
-        if d.get("fb") != "%d:%d:%08x" % (W, H, crc):
+        if crc is not None and d.get("fb") != "%d:%d:%08x" % (W, H, crc):
             return "op %d: framebuffer %s, generator encoded %d:%d:%08x" % (i, d.get("fb"), W, H, crc)
         got = [] if d.get("cb") == "-" else d.get("cb", "").split(",")
         if got != cbs:
@@ -343,6 +343,99 @@ def oracle(sessn, impl):
             if not outs.endswith(want):
                 return "op %d: update request %s, expected ...%s" % (i, outs, want)
     return None
+
+
+def _assemble(fmt, sfmt, W, H, encs, segs, fbmode, msgs):
+    """msgs: list of (z entries, message bytes, expected tuple)"""
+    lines = ["client %s enc=%s cursor=1 fbmode=%d" % (" ".join(str(v) for v in fmt.tuple()), "+".join(encs), fbmode),
+             "seg " + ",".join(str(v) for v in segs), "init " + hexs(E.handshake(sfmt, W, H, b"det"))]
+    expect = [None, None, ("init", W, H, b"det")]
+    for zs, m, ex in msgs:
+        for (sid, z, plain) in zs:
+            lines.append("z %d %s %s" % (sid, hexs(z), hexs(plain)))
+            expect.append(None)
+        lines.append("msg " + hexs(m))
+        expect.append(ex)
+    lines.append("end")
+    expect.append(None)
+    return "\n".join(lines) + "\n", expect
+
+
+TILE_MODES = [("raw",), ("solid",), ("packed", 2), ("packed", 3), ("packed", 5), ("packed", 16), ("rle",), ("prle", 2), ("prle", 127)]
+TRLE_MODES = [("packed", 4), ("reuse-packed",), ("raw",), ("reuse-prle",), ("prle", 17), ("reuse-prle",), ("rle",), ("prle", 3),
+              ("reuse-packed",), ("solid",), ("packed", 16), ("packed", 2)]
+
+
+def gen_deterministic(rng, lzo, jpeg):
+    """sessions that are part of EVERY run: every tile sub-encoding in every pixel-format
+    instantiation of the template decoders, every Tight mode with stream resets carried by
+    Fill (and JPEG) rectangles, empty cursor after non-empty cursor"""
+    out = []
+    sf = E.FMT_BY_NAME["rgb888le"]
+    for fmt in E.FORMATS:
+        for segs in ([0], [1]):
+            # ---- ZRLE + TRLE tiles, all modes
+            W, H = 150, 140
+            sess = E.Session(rng, fmt, W, H, lzo=lzo)
+            msgs = []
+            sess.z = []
+            sess.force_tile = list(TILE_MODES)
+            r1 = sess.enc_rect("zrle", 0, 0, W, H)
+            msgs.append((list(sess.z), E.fbu([r1]), ("msg", crc_fb(sess), W, H, ["upd:0:0:%d:%d" % (W, H), "fin"])))
+            sess.z = []
+            sess.force_tile = list(TRLE_MODES)
+            r2 = sess.enc_rect("trle", 3, 5, 64, 48)
+            msgs.append(([], E.fbu([r2]), ("msg", crc_fb(sess), W, H, ["upd:3:5:64:48", "fin"])))
+            sc, ex = _assemble(fmt, sf, W, H, ["zrle", "trle"], segs, 1, msgs)
+            out.append({"script": sc, "expect": ex, "tags": list(sess.tags) + ["det:tiles"], "fmt": fmt.name, "sfmt": sf.name,
+                        "encs": ["zrle", "trle"], "size": (W, H), "seg": segs})
+            if segs == [1]:
+                continue
+            # ---- Tight: modes x stream ids x reset bits (also carried by Fill rectangles)
+            W, H = 40, 30
+            sess = E.Session(rng, fmt, W, H, lzo=lzo)
+            plan = [("copy", 0, 0), ("fill", 0, 1), ("copy", 0, 0), ("pal2", 1, 0), ("paln", 1, 0), ("fill", 2, 0b1110),
+                    ("paln", 2, 0), ("copy-x", 3, 0), ("pal2", 0, 1), ("fill", 0, 0b1111), ("copy", 3, 0), ("copy", 1, 2), ("copy", 1, 0)]
+            if fmt.bpp != 8:
+                plan += [("grad", 3, 0), ("grad", 3, 8), ("grad", 2, 0)]
+            msgs = []
+            for k, (mode, sid, resets) in enumerate(plan):
+                sess.z = []
+                sess.force_sid, sess.force_resets = sid, resets
+                sess.force_k = [3, 256][k % 2]
+                x, y, w, h = [(0, 0, W, H), (1, 2, 37, 21), (5, 0, 9, 30)][k % 3]
+                r = sess.enc_rect("tight", x, y, w, h, force=mode)
+                msgs.append((list(sess.z), E.fbu([r]), ("msg", crc_fb(sess), W, H, ["upd:%d:%d:%d:%d" % (x, y, w, h), "fin"])))
+            sc, ex = _assemble(fmt, sf, W, H, ["tight"], [0], 1, msgs)
+            out.append({"script": sc, "expect": ex, "tags": list(sess.tags) + ["det:tight"], "fmt": fmt.name, "sfmt": sf.name,
+                        "encs": ["tight"], "size": (W, H), "seg": [0]})
+            # ---- cursor: non-empty, empty, non-empty, empty (free/NULL discipline)
+            sess = E.Session(rng, fmt, 8, 8, lzo=lzo)
+            msgs = []
+            for rich, size in [(True, (8, 8)), (True, (0, 0)), (False, (9, 2)), (False, (0, 5)), (True, (16, 16)), (True, (3, 0)), (False, (1, 1))]:
+                rect, obs = gen_cursor(rng, sess, rich, size)
+                msgs.append(([], E.fbu([rect]), ("msg", crc_fb(sess), 8, 8, ([obs] if obs else []) + ["fin"])))
+            sc, ex = _assemble(fmt, sf, 8, 8, ["raw"], [0], 0, msgs)
+            out.append({"script": sc, "expect": ex, "tags": ["det:cursor-empty-after-nonempty"], "fmt": fmt.name, "sfmt": sf.name,
+                        "encs": ["raw"], "size": (8, 8), "seg": [0]})
+    # ---- Tight JPEG rectangle carrying a stream reset (library only: JPEG is outside the model)
+    for name in ("rgb565le", "rgb888le"):
+        fmt = E.FMT_BY_NAME[name]
+        W, H = 48, 32
+        sess = E.Session(rng, fmt, W, H, lzo=lzo)
+        sess.force_sid, sess.force_resets = 0, 0
+        sess.z = []
+        r1 = sess.enc_rect("tight", 0, 0, W, H, force="copy")
+        j = jpeg(32, 16, 7)
+        sess.zs[0].reset()
+        rj = struct.pack(">HHHHI", 4, 4, 32, 16, 7) + bytes([0x91]) + E.compact_len(len(j)) + j
+        r3 = sess.enc_rect("tight", 0, 0, W, H, force="copy")
+        msgs = [([], E.fbu([r1]), ("msg", None, W, H, ["upd:0:0:%d:%d" % (W, H), "fin"])),
+                ([], E.fbu([rj, r3]), ("msg", crc_fb(sess), W, H, ["upd:4:4:32:16", "upd:0:0:%d:%d" % (W, H), "fin"]))]
+        sc, ex = _assemble(fmt, sf, W, H, ["tight"], [0], 1, msgs)
+        out.append({"script": sc, "expect": ex, "tags": ["det:tight-jpeg-reset"], "fmt": fmt.name, "sfmt": sf.name,
+                    "encs": ["tight"], "size": (W, H), "seg": [0], "nomodel": True})
+    return out
 
 
 def gen_roundtrip(rng):
@@ -412,6 +505,10 @@ def run(ctx):
                 sessions.append({"script": "\n".join(rec["script"]) + "\n", "expect": ex, "tags": ["corpus:" + f],
                                  "finding": rec.get("finding"), "fmt": rec.get("fmt"), "sfmt": rec.get("sfmt"),
                                  "encs": rec.get("encs", [])})
+        def jpeg(w, hh, seed):
+            rc, o, err = ctx.run_lines(h, "jpeg %d %d %d\n" % (w, hh, seed), env={"ASAN_OPTIONS": "detect_leaks=0"})
+            return bytes.fromhex(o[0])
+        sessions += gen_deterministic(ctx.rng, lzo, jpeg)
         for target in (126, 127, 128, 129, 16382, 16383, 16384, 16385):
             b = gen_tight_boundary(ctx.rng, target)
             if b:
@@ -420,7 +517,16 @@ def run(ctx):
         for _ in range(n):
             sessions.append(gen_session(ctx.rng, lzo))
     lzo.close()
-    res = common.pmap(lambda s: common.compare_streams(ctx, s["script"], h, d, "client.session", timeout=120), sessions)
+    def one(s):
+        if s.get("nomodel"):
+            rc, impl, err = ctx.run_lines(h, s["script"], timeout=120)
+            f = None
+            if rc != 0:
+                f = {"kind": "crash", "what": "client.session: harness exit %d" % rc, "script": s["script"].splitlines()[:400],
+                     "impl": impl[-20:], "detail": err}
+            return impl, [], f
+        return common.compare_streams(ctx, s["script"], h, d, "client.session", timeout=120)
+    res = common.pmap(one, sessions)
     evals, nontriv = 0, set()
     for s, (impl, model, f) in zip(sessions, res):
         evals += 1
